@@ -567,7 +567,7 @@ func (t *tr) applyContract(con *Contract, ct *callTarget, haveRecv bool, recv Te
 		n0 := len(t.allVars)
 		for _, kind := range []string{"ensures", "always_ensures", "ghost_ensures"} {
 			for _, cl := range con.clauses(kind) {
-				if !strings.Contains(cl.Text, "at_loop(") {
+				if !strings.Contains(cl.Text, "at_loop(") && !strings.Contains(cl.Text, "panicked") && !strings.Contains(cl.Text, "returned") {
 					sc2.where = cl.Where
 					t.spec(cl.Expr, sc2) // evaluated only to materialise the heaps it reads
 				}
@@ -583,7 +583,7 @@ func (t *tr) applyContract(con *Contract, ct *callTarget, haveRecv bool, recv Te
 	}
 	for _, kind := range []string{"ensures", "always_ensures", "ghost_ensures"} {
 		for _, cl := range con.clauses(kind) {
-			if strings.Contains(cl.Text, "at_loop(") {
+			if strings.Contains(cl.Text, "at_loop(") || strings.Contains(cl.Text, "panicked") || strings.Contains(cl.Text, "returned") {
 				// refers to an intermediate state of the callee: proved there, not usable (and not assumed) here
 				continue
 			}
